@@ -1875,8 +1875,11 @@ class NoteRestToken(ComplexToken):
                 if s.category in {TokenCategory.PITCH, TokenCategory.ALTERATION}
             ]
             if only_pitches_and_alterations:
-                agnostic_pitch_representation = convert_pitch_to_agnostic_fn(
-                    "".join(s.encoding for s in only_pitches_and_alterations)
+                # Only the diatonic pitch depends on the clef; the alteration (accidental and its
+                # display mark, e.g. '#', 'n', '-X') is not a pitch spelling and is carried over as is.
+                agnostic_pitch_representation = "".join(
+                    convert_pitch_to_agnostic_fn(s.encoding) if s.category == TokenCategory.PITCH else s.encoding
+                    for s in only_pitches_and_alterations
                 )
 
         if agnostic_pitch_representation is not None:
